@@ -22,34 +22,37 @@ def block_of(seq, current, notblocked):
 def step_classes(before, x):
     """For a failed install/refresh/revert step whose state differs from `before`: the set of known classes that
     together explain the difference exactly, or None when something else differs."""
+    import itertools
     after = x["after"]
     kinds, krevs, k = x.get("kinds") or [], x.get("krevs") or [], x["k"]
     done = list(zip(kinds, krevs))[:k - 1]
-    exp = dict(proj(before))
-    classes = set()
+    sup = x.get("sup") or {}
+    tgt = sup.get("rev")
     # finding 7: revisions whose discard-snap completed before the failure are gone (no undo for discard-snap)
     gone = [r for kd, r in done if kd == "discard-snap"]
-    if gone:
-        classes.add("fail-after-discard")
-        exp["seq"] = [r for r in exp["seq"] if r not in gone]
-        exp["mounted"] = [r for r in exp["mounted"] if r not in gone]
-        exp["not-blocked"] = [r for r in exp["not-blocked"] if r not in gone]
     # finding 6: a non-revert link-snap onto a kept revision drops its RevertStatus entry; undo does not put it back
-    sup = x.get("sup") or {}
     linked = any(kd == "link-snap" for kd, r in done)
-    tgt = sup.get("rev")
-    if linked and not sup.get("revert") and tgt in before["seq"] and tgt in exp["not-blocked"]:
-        classes.add("revert-status-lost")
-        exp["not-blocked"] = [r for r in exp["not-blocked"] if r != tgt]
+    rs_applies = linked and not sup.get("revert") and tgt in before["seq"] and tgt in before["not-blocked"]
     # finding 13: a snap that had no configuration keeps what the configure hook of the failed change wrote
     # (SaveRevisionConfig saves nothing when there is no configuration, so undoLinkSnap has nothing to restore)
     hooked = any(kd == "hook:configure" for kd, r in done) and x.get("hookcfg", 0) > 0
-    if hooked and before["cfg"] == 0 and before["seq"] and after["cfg"] == x["hookcfg"]:
-        classes.add("config-from-nothing")
-        exp["cfg"] = x["hookcfg"]
-    exp["block"] = block_of(exp["seq"], exp["current"], exp["not-blocked"])
-    if exp == proj(after):
-        return classes
+    cfg_applies = hooked and before["cfg"] == 0 and bool(before["seq"])
+    optional = [c for c, ok in (("fail-after-discard", bool(gone)), ("revert-status-lost", rs_applies),
+                                ("config-from-nothing", cfg_applies)) if ok]
+    for n in range(1, len(optional) + 1):
+        for classes in itertools.combinations(optional, n):
+            exp = dict(proj(before))
+            if "fail-after-discard" in classes:
+                exp["seq"] = [r for r in exp["seq"] if r not in gone]
+                exp["mounted"] = [r for r in exp["mounted"] if r not in gone]
+                exp["not-blocked"] = [r for r in exp["not-blocked"] if r not in gone]
+            if "revert-status-lost" in classes:
+                exp["not-blocked"] = [r for r in exp["not-blocked"] if r != tgt]
+            if "config-from-nothing" in classes:
+                exp["cfg"] = x["hookcfg"]
+            exp["block"] = block_of(exp["seq"], exp["current"], exp["not-blocked"])
+            if exp == proj(after):
+                return set(classes)
     return None
 
 
